@@ -89,6 +89,11 @@ class GzipDecompressor:
         """Returns the unconsumed portion left over"""
         return self.decompressobj.unconsumed_tail
 
+    @property
+    def eof(self) -> bool:
+        """True once the end of the compressed stream has been reached."""
+        return self.decompressobj.eof
+
     def flush(self) -> bytes:
         """Return any remaining buffered data not yet returned by decompress.
 
